@@ -230,12 +230,15 @@ def suite_evaluate(rng, tier, shard, nshards):
 # the functions as REGENERATED from the source (driver op `gen.chordseg`, lean/MirGen/ChordSeg.lean, translator part
 # `chordseg`) vs the real functions: the streams of the hand-model suites above re-targeted, plus small scopes
 
-GEN_FUNCTIONS = ("directional_hamming_distance", "overseg", "underseg", "seg")
+GEN_FUNCTIONS = ("directional_hamming_distance", "overseg", "underseg", "seg", "merge_chord_intervals")
 
 
 def as_gen(c):
     fn = c.op.split(".", 1)[1]
     info = dict(c.info or {}, op="gen.chordseg", fn=fn)
+    if fn == "merge_chord_intervals":        # the generated definition takes the labels themselves (encode_many is its extern)
+        return Case("gen.chordseg", [fn, c.args[0], list(c.info["labels"])], c.call, tol=c.tol, tag="%s:%s" % (fn, c.tag),
+                    info=info, nontrivial=c.nontrivial, post=c.post)
     return Case("gen.chordseg", [fn] + list(c.args), c.call, tol=c.tol, tag="%s:%s" % (fn, c.tag), info=info,
                 nontrivial=c.nontrivial, post=c.post)
 
@@ -245,6 +248,15 @@ def suite_gen_chordseg(rng, tier, shard, nshards):
         for c in SUITES[name](rng, "quick", shard, nshards):
             if c.op.startswith("chord.") and c.op[6:] in GEN_FUNCTIONS:
                 yield as_gen(c)
+    # merge_chord_intervals: an invalid label anywhere (InvalidChordException from the extern), runs of equal encodings
+    for labs in (["C:maj", "C", "C:maj", "N", "N", "G:7", "G:9"], ["C:maj", "nonsense", "C"], ["N"], [], ["X", "X", "N"],
+                 ["A:min7", "A:min9", "A:min7/b7"]):
+        ivs = [(Fr(k), Fr(k + 1)) for k in range(len(labs))]
+        yield Case("gen.chordseg", ["merge_chord_intervals", [[s, e] for s, e in ivs], list(labs)],
+                   lambda ivs=ivs, labs=labs: mir_eval.chord.merge_chord_intervals(arr(ivs), list(labs)),
+                   tol=0.0, tag="merge_chord_intervals:corner",
+                   info={"op": "gen.chordseg", "fn": "merge_chord_intervals", "labels": list(labs),
+                         "intervals": [[F(s), F(e)] for s, e in ivs]}, nontrivial=bool(labs))
     # all pairs of annotations with <= 2 intervals on a 5-point lattice (valid ones), plus faulty references / estimates
     fns = {"directional_hamming_distance": mir_eval.chord.directional_hamming_distance, "overseg": mir_eval.chord.overseg,
            "underseg": mir_eval.chord.underseg, "seg": mir_eval.chord.seg}
